@@ -868,6 +868,7 @@ def run_property(prop, monitor, crate_rule, n_quick=700, n_thorough=1500, weight
     c.run_gate()
     n = n_quick if c.tier == "quick" else n_thorough
     cases = witnesses() + load_corpus(prop) + generate(c.rng, n, weights)
+    cases = vplib.replay_cases() or cases
     dist = {}
     flat = []          # (case index, coq input, coq expected)
     exe, log, mode = vplib.build_harness("ntp-proto", prop)
@@ -904,6 +905,12 @@ def run_property(prop, monitor, crate_rule, n_quick=700, n_thorough=1500, weight
             what, payload = m
             payload = dict(payload)
             payload.update({"harness_input": lines[i], "implementation_output": " ".join(toks)[:4000], "crate": "ntp-proto"})
+            try:
+                json.dumps(case)
+                payload["case_for_replay"] = case
+                payload.setdefault("case", case)
+            except (TypeError, ValueError):
+                pass
             c.fail(what, payload)
         if o.panic:
             terms.append("(%d%%N, {| k_op := 0; k_cfg := {| c_intended := 3; c_require_nts := 0; c_accepted := [] |}; "
